@@ -86,11 +86,6 @@ def specOfJson (j : Json) : R (Spec GQ) := do
   else
     pure (.leaf (← leafOfJson j))
 
-def junkOfJson (j : Json) : R (Option GQ) :=
-  match fldOpt j "junk" with
-  | none => pure none
-  | some v => some <$> gqOfJson v
-
 def forceG (a : NDA GQ) : NDA GQ := a.force (0, 0)
 
 def rowsJ (rows : List (List GQ)) : Json := listJ (listJ gqToJson) rows
@@ -106,12 +101,12 @@ def c02 (op : String) (j : Json) : Option (R Json) :=
       let m ← meshOfJson (← fld j "mesh")
       let nv ← natOfJson (← fld j "nvdim")
       let s ← specOfJson (← fld j "spec")
-      pure (resJ gndaToJson ((updateValues gqIsZero (← junkOfJson j) s m nv).map forceG))
+      pure (resJ gndaToJson ((updateValues gqIsZero s m nv).map forceG))
   | "as_array" => some do
       let m ← meshOfJson (← fld j "mesh")
       let nv ← natOfJson (← fld j "nvdim")
       let s ← specOfJson (← fld j "spec")
-      pure (resJ gndaToJson ((asArray gqIsZero (← junkOfJson j) s m nv).map forceG))
+      pure (resJ gndaToJson ((asArray gqIsZero s m nv).map forceG))
   | "set_array" => some do
       let f ← vfOfJson (← fld j "field")
       let l ← leafOfJson (← fld j "leaf")
@@ -119,7 +114,7 @@ def c02 (op : String) (j : Json) : Option (R Json) :=
   | "update" => some do
       let f ← vfOfJson (← fld j "field")
       let s ← specOfJson (← fld j "spec")
-      pure (afterJ f (f.update gqIsZero (← junkOfJson j) s))
+      pure (afterJ f (f.update gqIsZero s))
   | "region2slices" => some do
       let m ← meshOfJson (← fld j "mesh")
       let r ← regionOfJson (← fld j "region")
